@@ -113,7 +113,10 @@ def run(ctx) -> Result:
     n = 130 if not ctx.thorough else 2500
     for i in range(n):
         cfg = pipecheck.CONFIGS[i % len(pipecheck.CONFIGS)]
-        if i % 3 != 2:
+        if i % 9 == 4:
+            hist = pipe.gen_history_renames(rng, n_renames=rng.randint(2, 5))     # take-overs, ancestor renames, out and back
+            one(ctx, res, hist, cfg, batch, "soundness")
+        elif i % 3 != 2:
             hist = pipe.gen_history(rng, n_ops=rng.randint(3, 12), paced=True, burst_prob=0.0, rename_after_arrival=0.0)
             one(ctx, res, hist, cfg, batch, "contract")
         else:
